@@ -1,6 +1,7 @@
 (* C14 — Queryable UTXO views agree with the ledger.  Property theorems only. *)
 From Coq Require Import List ZArith NArith Bool.
-From ELA Require Import model.Ledger proof.Ledger_unspent proof.C06_Ledger proof.C14_Ledger.
+From ELA Require Import model.Ledger proof.Ledger_unspent proof.C06_Ledger proof.C14_Ledger
+  proof.Ledger_addr proof.Ledger_addr_inv proof.C14_Addr.
 From ELA Require corr.C14_corr. (* so that the correspondence checker is rebuilt with the model *)
 Import ListNotations.
 Local Open Scope N_scope.
@@ -37,12 +38,48 @@ Theorem C14_balance_is_sum : forall s addr heights,
 Proof. exact balance_is_sum. Qed.
 Print Assumptions C14_balance_is_sum.
 
-(* NOT PROVED (partial level): the refinement of the per-address list itself,
-     forall addr u, In u (q_utxos s addr heights) <->
-       utxo_set c (u_tx u, u_idx u) = true /\ output (u_tx u, u_idx u) pays u_val u <> 0 to addr,
-   for every history.  It is checked on every run by the correspondence (model
-   = implementation on GetUTXO/GetAmount after every step of every generated
-   history) and by the independent-replay oracle on the implementation. *)
+(* The per-address index refines the ledger.  [inv2] extends the C06 invariant
+   by: block heights increase along the chain, the tx index maps an id to
+   exactly (height, transaction) of the active chain, and every
+   (address, height) entry holds exactly the entries [owns c a ht u]:
+   u = (tx, index, value) such that the transaction tx is on the active chain
+   in the block of height ht, its output number index pays value <> 0 to the
+   address, and that output is in the UTXO set of the replayed chain.
+   After every history of validated connects and disconnects:
+   - each entry is exactly that set, without two entries for one outpoint;
+   - the list GetUTXO returns for an address (concatenation over distinct
+     heights) has no two entries for one outpoint and contains exactly the
+     non-zero unspent outputs of the address (multiset equality). *)
+Theorem C14_addr_index_refines_ledger : forall (mat : N) (st : state * chain) (h : list hstep),
+  inv2 (fst st) (snd st) /\ snd st <> [] ->
+  let '(s, c) := history_run cfg_fixed mat st h in
+  (forall a ht u, In u (s_addr s a ht) <-> owns c a ht u) /\
+  (forall a hs, NoDup hs -> udistinct (q_utxos s a hs)) /\
+  (forall a hs u, In u (q_utxos s a hs) <-> exists ht, In ht hs /\ owns c a ht u).
+Proof. exact addr_index_refines_ledger. Qed.
+Print Assumptions C14_addr_index_refines_ledger.
+
+(* A found transaction is reported with the height of its block on the active chain. *)
+Theorem C14_tx_lookup_height : forall (mat : N) (st : state * chain) (h : list hstep),
+  inv2 (fst st) (snd st) /\ snd st <> [] ->
+  let '(s, c) := history_run cfg_fixed mat st h in
+  forall t ht, q_tx s t = Some ht <-> exists x, on_chain c t ht x.
+Proof. exact tx_lookup_height. Qed.
+Print Assumptions C14_tx_lookup_height.
+
+(* [inv2] holds after the index catch-up of any genesis block with distinct
+   transaction ids that spends nothing, and is preserved by every history. *)
+Theorem C14_genesis_invariant : forall g s0,
+  init_state g = Ok s0 -> NoDup (ids (b_txs g)) -> block_spends g = [] -> inv2 s0 [g].
+Proof. exact init_inv2. Qed.
+Print Assumptions C14_genesis_invariant.
+
+Theorem C14_invariant_all_histories : forall (mat : N) (h : list hstep) (st : state * chain),
+  inv2 (fst st) (snd st) /\ snd st <> [] ->
+  inv2 (fst (history_run cfg_fixed mat st h)) (snd (history_run cfg_fixed mat st h)) /\
+  snd (history_run cfg_fixed mat st h) <> [].
+Proof. exact history_inv2. Qed.
+Print Assumptions C14_invariant_all_histories.
 
 (* Non-vacuity: a history with a reorganisation; the address lists of the model
    hold the non-zero outputs of the replayed chain and skip the zero-value
@@ -63,3 +100,8 @@ Example C14_nonvacuous :
   q_balance (fst st) 0 [0; 1; 2; 3] = 195%Z /\
   q_unspent (fst st) 3 = [1; 0] /\ q_tx (fst st) 5 = None /\ q_tx (fst st) 7 = Some 3.
 Proof. vm_compute. auto 10. Qed.
+
+Example C14_inv2_nonvacuous : inv2 (fst v_start) (snd v_start) /\ snd v_start <> [].
+Proof.
+  split; [|discriminate]. apply init_inv2; [reflexivity| |reflexivity]. repeat constructor. intros [].
+Qed.
